@@ -12,7 +12,9 @@
      a pointer, the model the position), the integer members are the model's.
    * an int result r is read as [vres_of (Some r)]: 0 is VOk, anything else VErr r; None (a read outside [b]) is VOob.
    * C `int required` is any int; the model's bool is [negb (required =? 0)].
-   * `uint16_t align` is a power of two up to 32768 ([pow2_16]): the C masks with (align - 1u), the model uses mod. *)
+   * `uint16_t align` is a power of two up to 32768 ([pow2_16]): the C masks with (align - 1u), the model uses mod.
+   * descriptor leaves are compared on the descriptors verify_table constructs ([td_inv], LeafTac.v / LeafInv.v) and on
+     field ids a schema can contain ([id_ok]). *)
 From Flatcc.Verifier Require Export VerifierModel LeafTac.
 From Flatcc.Generated Require Import Leaf_verifier.
 Local Open Scope Z_scope.
@@ -25,9 +27,6 @@ Definition td_of (b : buf) (addr : Z) (d : td) : c_td :=
   {| td_buf := ptr_of b addr (t_o d); td_end := t_end d; td_ttl := t_ttl d;
      td_vtable := ptr_of b addr (t_o d + t_vtable d);
      td_table := t_table d; td_tsize := t_tsize d; td_vsize := t_vsize d |}.
-
-Definition td_range (d : td) : Prop :=
-  in_u32 (t_end d) /\ in_u32 (t_table d) /\ in_u16 (t_tsize d) /\ in_u16 (t_vsize d).
 
 (* ------------------------------------------------------------------------------------------------------------
    Search (used by checks/c01c_util.py when LeafEquiv.v no longer checks): results are coded as integers,
@@ -66,11 +65,14 @@ Definition Gvt : list (list Z) :=
     [8; 0; 8; 0; 0; 0; 6; 0; 8; 0; 0; 0; 0; 0; 0; 0];
     [4; 0; 4; 0; 7; 0];
     [4; 0] ].
+(* only descriptors verify_table can construct (td_invb) and ids a schema can contain (id_okb): a difference outside
+   these is not a difference between the verifier and its model *)
 Definition Gtd : list td :=
-  flat_map (fun vt => flat_map (fun table => flat_map (fun tsize => map (fun vsize =>
+  filter td_invb
+  (flat_map (fun vt => flat_map (fun table => flat_map (fun tsize => map (fun vsize =>
     {| t_o := 0; t_end := 20; t_ttl := 10; t_vtable := vt; t_table := table; t_tsize := tsize; t_vsize := vsize |})
-    [4; 6; 8; 10; 0; 65534]) [12; 8; 4; 9; 0; 65535]) [8; 12; 0; 4294967292]) [0; 2].
-Definition Gid : list Z := [0; 1; 2; 3; 4; 32765; 32766; 32767; 65533; 65534; 65535].
+    [4; 6; 8; 10; 12; 5; 0; 65534]) [12; 8; 4; 9; 0; 65535]) [8; 12; 16; 0; 10; 4294967292]) [0; 2; 4; 1]).
+Definition Gid : list Z := filter id_okb [0; 1; 2; 3; 4; 5; 32762; 32763; 32764; 32766; 65535].
 Definition Greq : list Z := [0; 1; -1].
 Definition td_args (d : td) : list Z := [t_vtable d; t_table d; t_tsize d; t_vsize d].
 
@@ -84,7 +86,7 @@ Definition search_verify_field :=
       wit l (addr :: td_args d ++ [id; req; size; al])
         (code (vres_of (c_verify_field (td_of b addr d) id req size al)))
         (code (verify_field b addr d id (negb (req =? 0)) size al)))
-    [1; 4; 8]) [0; 4; 4294967295]) Greq) [0; 1; 2; 65534]) Gtd) [0; 1; 4294967298]) (firstn 3 Gvt).
+    [1; 4; 8]) [0; 4; 4294967295]) Greq) (firstn 4 Gid)) Gtd) [0; 1; 4294967298]) (firstn 3 Gvt).
 
 Definition search_get_offset_field :=
   first_some (fun l => let b := of_list l in first_some (fun d => first_some (fun id => first_some (fun req =>
